@@ -121,6 +121,7 @@ PROPS = {
     'C08': {
         'vx': ['U-store', 'U-bounds', 'U-first', 'U-range', 'U-rid-order'],
         'kx': [KX['U-incr32'], KX['U-incr-var'], KX['U-ord'], KX['U-xor']],
+        'bx': ['c08_range'],
         'assumptions': [A_REDB, A_INCR, A_BYTES, A_ENTRY, A_MODIFY, A_EXTRACT],
         'not_covered': ['transcript equality of whole sessions across backends (relational over process_message, see C01)',
                         'RecordsRange::{with_bounds,next} and the Chain/Flatten adaptors are shells: Verus cannot attach specifications to the provided trait methods Iterator::chain/flatten (one logged R8 map in get_range)',
@@ -146,13 +147,14 @@ PROPS = {
     'C05': {
         'vx': ['U-bounds', 'U-policy-filters', 'U-policy-index', 'U-policy-selector', 'U-policy-bykey', 'U-store'],
         'kx': [KX['U-incr32'], KX['U-incr-var']],
+        'bx': ['c05_query'],
         'assumptions': [A_REDB, A_INCR, A_BYTES, A_ENTRY,
                         'RangeExt::next_filter_map / next_try_filter_map (loop with `break <value>`) are modelled in the range shell of U-policy-bykey, not verified'],
-        'not_covered': ['QueryIterator::next (offset/limit window, empty skipping after grouping, order of author filter and grouping): Verus rejects its closure parameter patterns and `break <value>`; Kani cannot run redb/Bytes'],
+        'not_covered': ['QueryIterator::new/next (offset/limit window, empty skipping after grouping, order of author filter and grouping): Verus rejects its closure parameter patterns and `break <value>`; Kani cannot run redb/Bytes. Covered only by the bounded stand-in c05_query (5508 queries over one 9-row state)'],
         'explanation': 'Exactness of every range bound used by queries (author/key/prefix on both indexes), index choice, the latest-per-key grouping step and point lookups.',
     },
     'C11': {
-        'vx': ['U-peer', 'U-live-nss', 'U-live-handlers', 'U-live-dial'],
+        'vx': ['U-peer', 'U-live-nss', 'U-live-handlers', 'U-live-dial', 'U-codec-bob', 'U-codec-conn'],
         'kx': [KX['U-dir']],
         'assumptions': [
             'SystemTime::now / Instant::now: arbitrary values (assume_specification without postcondition)',
